@@ -329,6 +329,8 @@ def rand_type(rng, depth, models=()):
                 if x[0] == "opt" or x in alts:
                     continue
                 alts.append(x)
+        if not alts:
+            return [rng.choice(ATOMS)]
         return ["union", alts] if len(alts) >= 2 else alts[0]
     if r < 0.85:
         return ["list", rand_type(rng, depth - 1, models)]
@@ -858,7 +860,7 @@ def gen_for_hint(rng, hint, depth, stack=()):
         for _ in range(rng.randrange(0, 3)):
             k = gen_for_hint(rng, args[0], depth - 1, stack)
             v = gen_for_hint(rng, args[1], depth - 1, stack)
-            if k is not OMIT and v is not OMIT and isinstance(k, str):
+            if k is not OMIT and v is not OMIT and isinstance(k, str) and len(k) <= 40:  # long keys: see C12 yaml-long-key
                 out[k] = v
         return out
     if isinstance(hint, typing.ForwardRef) or isinstance(hint, str):
